@@ -98,6 +98,11 @@ def contradicts(expect, obs):
                 why.append("lexer panicked on %r" % text)
             else:
                 why += check_lex(text, obs["raw_lines"])
+        elif e[0] == "top_str_is":
+            top = obs["cells"][0] if obs["cells"] else None
+            want = '"' + e[1] + '"' if all(ch.isalnum() or ch in " _-" or ord(ch) > 127 for ch in e[1]) else None
+            if top is None or top[0] != "str" or (want is not None and top[1] != want):
+                why.append("top of stack %r is not the string %r" % (top, e[1]))
         elif e[0] == "first_cells_are":
             got = [(c[0], c[1]) for c in obs.get("first_cells", [])]
             if got != [tuple(x) for x in e[1]]:
